@@ -284,3 +284,29 @@ def check_pass_walk(ctx, rep, cfg, rule="C04.R1"):
         else:
             rep.violation(rule, cons, fsite(f), "%s does not walk the tweakey like %s (different permutation / LFSR step or different tweakey bits per schedule bit): xoring a tweak out and another in does not give the schedule a fresh key setup would" % (f.name, g.name), cfg=cn)
     return n
+
+
+def check_mantis(ctx, rep, cfg, rule="C03.R7"):
+    """every Mantis block function: one backward round undoes one forward round on (state, tweak)."""
+    from ..affine import mantis_round_inverse
+    from ..build import config_name
+    from .c05 import loop_paths
+    cn = config_name(cfg)
+    prog = ctx.prog(cfg)
+    n = 0
+    for f in sorted(prog.defined(), key=lambda f: f.key):
+        if not f.name.lstrip("_").startswith("mantis") or len(f.loops()) < 2:
+            continue
+        try:
+            r = mantis_round_inverse(prog, f, loop_paths)
+        except Exception as e:
+            r = ("skip", "internal: %s" % str(e)[:100])
+        if isinstance(r, tuple):
+            continue
+        n += 1
+        cons = construct(f)
+        if r is None:
+            rep.ok(rule, cons, fsite(f), "one backward round after one forward round restores the tweak and feeds exactly the forward S-box output into the (involutive) S-box, for every state bit: inverse MixColumns / ShiftRows, tweak schedule, key, tweak and round-constant placement cancel", cfg=cn)
+        else:
+            rep.violation(rule, cons, fsite(f), "the backward rounds of %s do not undo its forward rounds: %s" % (f.name, r), cfg=cn)
+    return n
